@@ -1,6 +1,7 @@
 """Well-formed table bundles (DESIGN.md §3) as real pdtable Tables, and their protocol form for the
 Lean writer model (driver ops "write_csv" / "read_csv")."""
 import datetime
+import weakref
 import io
 import math
 import warnings
@@ -57,7 +58,7 @@ def wf_table(rng, sep, transposed=None, kinds=None, n_row=None):
         transposed = rng.random() < 0.45
     n_col = rng.choice([0, 1, 1, 2, 2, 3, 4, 5]) if kinds is None else len(kinds)
     n_row = rng.choice([0, 1, 1, 2, 3, 6]) if n_row is None else n_row
-    kinds = [rng.choice(["text", "onoff", "datetime", "num", "num", "int"]) for _ in range(n_col)] \
+    kinds = [rng.choice(["text", "onoff", "datetime", "num", "num", "int", "f32", "i32", "u8"]) for _ in range(n_col)] \
         if kinds is None else list(kinds)
     # 1. name
     while True:
@@ -139,6 +140,14 @@ def wf_table(rng, sep, transposed=None, kinds=None, n_row=None):
                                                                rng.choice([0, 0, 1, 999999, 123000]))))
             elif k == "int":
                 vals.append(rng.choice([0, 1, -1, 7, 10 ** 6, -2 ** 40, 2 ** 53 - 1]))
+            elif k == "i32":
+                vals.append(rng.choice([0, 1, -1, 7, 10 ** 6, -2 ** 31, 2 ** 31 - 1]))
+            elif k == "u8":
+                vals.append(rng.choice([0, 1, 7, 128, 255]))
+            elif k == "f32":
+                # single precision: the value a float32 holds is written with all the digits of its float64 widening
+                vals.append(rng.choice([float("nan"), 0.1, 0.5, -2.5, 1e-3, 3.1415927, 1e10, float("inf"), 16777216.0,
+                                        rng.random()]))
             else:
                 r = rng.random()
                 if r < 0.2:
@@ -158,15 +167,43 @@ def wf_table(rng, sep, transposed=None, kinds=None, n_row=None):
         v = cols[nm]
         if k == "text":
             data[nm] = np.array(v, dtype=object) if v else np.array([], dtype=object)
+            if rng.random() < 0.3:
+                data[nm] = pd.array(list(v), dtype="str")      # pandas 3's own string dtype
         elif k == "onoff":
             data[nm] = np.array(v, dtype=bool)
         elif k == "int":
             data[nm] = np.array(v, dtype="int64")
+        elif k == "i32":
+            data[nm] = np.array(v, dtype="int32")
+        elif k == "u8":
+            data[nm] = np.array(v, dtype="uint8")
+        elif k == "f32":
+            data[nm] = np.array(v, dtype="float32")
         elif k == "datetime":
             data[nm] = pd.Series(v, dtype="datetime64[us]").to_numpy() if v else np.array([], dtype="datetime64[us]")
         else:
             data[nm] = np.array(v, dtype="float64")
     df = pd.DataFrame(data)
+    if n_row and rng.random() < 0.2:
+        # row labels are not part of a table: any labels (shifted, reversed, text, repeated)
+        df.index = rng.choice([list(range(5, 5 + n_row)), list(range(n_row, 0, -1)), [f"r{i}" for i in range(n_row)],
+                               [0] * n_row])
+    # the generator's own record of what the table holds (the expectation of the round trip is this record, not
+    # what the library reports about the table it was given)
+    record = {"name": name, "transposed": bool(transposed), "destinations": sorted(dests), "names": list(names),
+              "units": list(units), "columns": []}
+    for nm, k in zip(names, kinds):
+        arr = data[nm]
+        if n_row == 0:
+            record["columns"].append({"k": "raw", "v": []})
+        elif k == "text":
+            record["columns"].append({"k": "text", "v": [str(x) for x in cols[nm]]})
+        elif k == "onoff":
+            record["columns"].append({"k": "onoff", "v": [bool(x) for x in cols[nm]]})
+        elif k == "datetime":
+            record["columns"].append({"k": "dt", "v": [rc.ts_tok(x) for x in cols[nm]]})
+        else:
+            record["columns"].append({"k": "num", "v": [float_tok(float(x)) for x in np.asarray(arr).tolist()]})
     with warnings.catch_warnings():
         warnings.simplefilter("ignore")
         t = Table(df, name=name, destinations=dests, units=units, transposed=transposed)
@@ -182,7 +219,17 @@ def wf_table(rng, sep, transposed=None, kinds=None, n_row=None):
             t.metadata.transposed = transposed
     if any(c in sep_chars_of_render(t) for c in bad):
         return wf_table(rng, sep, transposed, kinds, n_row)   # a numeral / timestamp contains the separator: not admissible
+    RECORDS[id(t)] = (weakref.ref(t.df), record)
     return t, kinds
+
+
+RECORDS = {}
+
+
+def record_of(t):
+    """the generator's record of a table it built (None for tables that came from elsewhere)"""
+    ent = RECORDS.get(id(t))
+    return ent[1] if ent is not None and ent[0]() is t.df else None
 
 
 YEAR_EDGES = [1, 2, 99, 100, 999, 1000, 1582, 1583, 1676, 1677, 1678, 1899, 1900, 1969, 1970, 2037, 2038, 2039, 2261, 2262,
